@@ -23,6 +23,7 @@ type c15Case struct {
 	Subset     int    // bit0 ICC, bit1 EXIF, bit2 XMP
 	BlobKind   [3]string
 	W, H       int
+	Opts       bool // stills: every other EncoderOptions field drawn from its legal values instead of the defaults
 }
 
 var c15BlobKinds = []string{"1byte", "odd", "even", "64k-1", "64k", "64k+1", "zeros", "riff-like", "anmf-like", "empty", "big"}
@@ -58,7 +59,7 @@ func c15Blob(r *rand.Rand, kind string) []byte {
 
 func runC15(c *ev.Ctx) {
 	c.Rule = "Encode / AnimEncoder with every subset of {ICC,EXIF,XMP} x blob classes (1 byte, odd, even, 64KiB±1, zeros, chunk-like content with lying sizes, empty, 300 KB) " +
-		"x output kinds (lossy, lossy+alpha, lossless streaming/buffered, animated lossless/lossy, single-frame animation); oracles: blobs read back byte-exact via " +
+		"x output kinds (lossy, lossy+alpha, lossless streaming/buffered, animated lossless/lossy, single-frame animation) x (default options | every other option field drawn from its legal values, incl. Exact with coloured transparent pixels); oracles: blobs read back byte-exact via " +
 		"Demuxer.GetChunk, animation.DecodeBytes and the independent walker; VP8X flags <=> chunks; image payloads and decoded pixels identical to the metadata-free encode; " +
 		"distinct = (kind, subset, blob classes)"
 	kinds := []string{"still-lossy", "still-lossy-alpha", "still-lossless", "anim-lossless", "anim-lossy", "anim-single", "still-lossless-alpha"}
@@ -66,7 +67,7 @@ func runC15(c *ev.Ctx) {
 	var cases []ev.Case
 	for i := 0; i < n; i++ {
 		r := rng(c, i)
-		cc := c15Case{Kind: kinds[i%len(kinds)], Subset: 1 + (i/len(kinds))%7, W: 1 + r.Intn(40), H: 1 + r.Intn(40)}
+		cc := c15Case{Kind: kinds[i%len(kinds)], Subset: 1 + (i/len(kinds))%7, W: 1 + r.Intn(40), H: 1 + r.Intn(40), Opts: (i/(7*len(kinds)))%3 != 0}
 		for k := 0; k < 3; k++ {
 			cc.BlobKind[k] = c15BlobKinds[r.Intn(len(c15BlobKinds))]
 			if cc.BlobKind[k] == "big" && !c.Thorough() && r.Intn(4) != 0 {
@@ -86,11 +87,14 @@ type c15Out struct {
 	err  error
 }
 
-func c15Encode(cc c15Case, frames []*image.NRGBA, icc, exif, xmp []byte) c15Out {
+func c15Encode(cc c15Case, or *rand.Rand, frames []*image.NRGBA, icc, exif, xmp []byte) c15Out {
 	switch cc.Kind {
 	case "still-lossy", "still-lossy-alpha", "still-lossless", "still-lossless-alpha":
 		o := webp.DefaultOptions()
 		o.Lossless = cc.Kind == "still-lossless" || cc.Kind == "still-lossless-alpha"
+		if cc.Opts {
+			o = legalOpts(or, o.Lossless)
+		}
 		o.ICC, o.EXIF, o.XMP = icc, exif, xmp
 		d, err := encode(frames[0], o)
 		return c15Out{d, err}
@@ -122,6 +126,9 @@ func c15One(c *ev.Ctx, cs ev.Case) {
 	alpha := "opaque"
 	if cc.Kind == "still-lossy-alpha" || cc.Kind == "still-lossless-alpha" || (cc.Kind[:4] == "anim" && r.Intn(2) == 0) {
 		alpha = pickS(r, "binary", "gradient", "levels3")
+		if cc.Opts {
+			alpha = pickS(r, "binary", "gradient", "levels3", "transparentrgb", "noise", "blocks", "alltransparent", "onepix")
+		}
 	}
 	nf := 1
 	if cc.Kind == "anim-lossless" || cc.Kind == "anim-lossy" {
@@ -137,10 +144,10 @@ func c15One(c *ev.Ctx, cs ev.Case) {
 			blobs[k] = c15Blob(r, cc.BlobKind[k])
 		}
 	}
-	with := c15Encode(cc, frames, blobs[0], blobs[1], blobs[2])
-	plain := c15Encode(cc, frames, nil, nil, nil)
+	with := c15Encode(cc, rng(c, cs.Idx+5<<20), frames, blobs[0], blobs[1], blobs[2])
+	plain := c15Encode(cc, rng(c, cs.Idx+5<<20), frames, nil, nil, nil)
 	c.Eval(1)
-	c.Distinct(fmt.Sprintf("%s|%d|%v", cc.Kind, cc.Subset, cc.BlobKind))
+	c.Distinct(fmt.Sprintf("%s|%d|%v|%v", cc.Kind, cc.Subset, cc.BlobKind, cc.Opts))
 	rep := func() any {
 		return map[string]string{"file": b64(with.data), "icc": b64(blobs[0]), "exif": b64(blobs[1]), "xmp": b64(blobs[2])}
 	}
